@@ -8,8 +8,7 @@ import sys
 
 from . import main as M
 
-KEYS = ('type', 'origin', 'rebuilt', 'table_kind', 'exc', 'site', 'stage',
-        'op', 'rule', 'kind', 'path', 'attr', 'what', 'family')
+KEYS = tuple(os.environ.get('KEYS', 'type,origin,rebuilt,table_kind,exc,site,stage,op,rule,kind,path,attr,what,family').split(','))
 
 
 def run(pid, tier, seed, show=2):
